@@ -541,19 +541,35 @@ def case_split(actual, expected):
     gen = alg.subst(actual, dict((a.id, C(0 if a.name == 'eq' else 1)) for a in special))
     gen = fold_conditions(gen)
     r = alg.decide_equal(gen, expected)
-    if r != 'equal':
-        return 'unknown', ''
+    # (a special input at which the code departs from the reference is a difference whatever the generic case turns out to be; the
+    # generic case is needed only to conclude EQUAL)
+    generic_equal = (r == 'equal')
     notes = []
+    todo = []
     for a in special:
         sol = solve_special(a)
         if sol is None:
+            if not generic_equal:
+                return 'unknown', ''
             return 'unknown', 'special case %s not solvable for one input' % alg.fmt(Rat.atom(a), 3)
-        s, v = sol
+        todo.append((a, sol[0], sol[1]))
+        # a test of the MAGNITUDE of an input (abs(lat) == 90) singles out two values: the mirror image is a special input too
+        if any(alg.TABLE.atoms[k_].kind == 'fn' and alg.TABLE.atoms[k_].name == 'abs' for x_ in a.args if isinstance(x_, Rat) for k_ in x_.atoms(deep=True)) and sol[1] != 0:
+            todo.append((a, sol[0], -sol[1]))
+    open_ = []
+    for a, s, v in todo:
         try:
             la = fold_conditions(alg.subst(actual, {s.id: C(v)}))
             lb = fold_conditions(alg.subst(expected, {s.id: C(v)}))
         except ZeroDivisionError:
-            return 'unknown', 'reference not defined at %s = %s' % (s.name, v)
+            # the reference formula has a removable singularity there (tan at a pole): its LIMIT from inside the domain is what the special
+            # branch has to return.  Both forms are evaluated a hair inside (v (1 - 1e-9)) at several values of the other inputs
+            lim = _limit_disagreement(actual, expected, s, v)
+            if lim is not None:
+                return 'different', 'for %s = %s (the code tests %s) the code returns %.9g where the formula tends to %.9g as %s approaches %s' % (
+                    s.name, v, alg.fmt(Rat.atom(a), 3)[:80], lim[0], lim[1], s.name, v)
+            open_.append('reference not defined at %s = %s' % (s.name, v))
+            continue
         r2 = alg.decide_equal(la, lb)
         if r2 == 'different':
             return 'different', 'for %s = %s (the code tests %s) the code returns %s where the formula gives %s' % (
@@ -564,9 +580,52 @@ def case_split(actual, expected):
                 pt, va, vb = wit
                 return 'different', 'for %s = %s (the code tests %s) the code and the formula differ, e.g. at %s: %.9g instead of %.9g' % (
                     s.name, v, alg.fmt(Rat.atom(a), 2)[:80], ', '.join('%s=%.4g' % kv for kv in sorted(pt.items())[:6]), va.real, vb.real)
+            if not generic_equal:
+                continue
             return 'unknown', 'special case %s = %s not decided' % (s.name, v)
         notes.append('%s = %s' % (s.name, v))
+    if not generic_equal:
+        return 'unknown', ''
+    if open_:
+        return 'unknown', open_[0]
     return 'equal', 'generic case and special inputs %s agree' % ', '.join(notes)
+
+
+def _limit_disagreement(actual, expected, s, v, trials=4):
+    """(value of the code AT s = v, extrapolated value of the formula) when they differ clearly at every sample of the other inputs.  The
+    formula is evaluated at two offsets INSIDE the domain that are far enough from the singular point for double evaluation to be
+    stable (1 and 2 per cent of v) and extrapolated linearly; a difference counts only when it is ten times the change between the two
+    offsets (a continuous function cannot jump by that much over the remaining one per cent)."""
+    ids = sorted(set(actual.atoms(deep=True)) | set(expected.atoms(deep=True)))
+    syms = [alg.TABLE.atoms[k] for k in ids if alg.TABLE.atoms[k].kind == 'sym' and alg.TABLE.atoms[k].name != 'pi' and alg.TABLE.atoms[k].id != s.id]
+    rng = _DefaultRanges()
+    shared = sorted(alg._shared_opaque(actual, expected))
+    res = None
+    n = 0
+    if v == 0:
+        return None
+    for t in range(trials):
+        env = {}
+        for j, sy in enumerate(syms):
+            lo, hi = rng[sy.name]
+            env[sy.id] = lo + (hi - lo) * (((t + 1) * 0.6180339887498949 + (j + 1) * 0.7548776662466927) % 1.0)
+        for j, k in enumerate(shared):
+            env[k] = 0.3 + 0.6 * (((t + 1) * 0.5545497 + (j + 1) * 0.3819660) % 1.0)
+        try:
+            env[s.id] = float(v)
+            va = alg.evalf(actual, env)
+            env[s.id] = float(v) * 0.98
+            v1 = alg.evalf(expected, env)
+            env[s.id] = float(v) * 0.99
+            v2 = alg.evalf(expected, env)
+        except (alg.NotEvaluable, ZeroDivisionError, OverflowError, ValueError):
+            continue
+        n += 1
+        lim = v2 + (v2 - v1)
+        if abs(va - lim) <= 10 * abs(v2 - v1) + 1e-6 * max(abs(va), abs(lim), 1e-12):
+            return None
+        res = res or (va.real, lim.real)
+    return res if n >= 2 else None
 
 
 RANGE_OVERRIDE = {}
